@@ -152,13 +152,45 @@ _fscale = st.floats(1e-2, 1e3).map(lambda v: _round_sig(v, 6)).filter(lambda v: 
 _scales = st.one_of(_pow2, _fscale)
 
 
-def frame(rows, index=None):
-    df = pd.DataFrame({"load": np.asarray([r[0] for r in rows], dtype=np.float64),
-                       "cycles": np.asarray([r[1] for r in rows], dtype=np.float64),
-                       "fracture": np.asarray([bool(r[2]) for r in rows], dtype=bool)})
+def frame(rows, index=None, rid=None):
+    cols = {"load": np.asarray([r[0] for r in rows], dtype=np.float64),
+            "cycles": np.asarray([r[1] for r in rows], dtype=np.float64),
+            "fracture": np.asarray([bool(r[2]) for r in rows], dtype=bool)}
+    if rid is not None:
+        cols["specimen"] = np.asarray(rid, dtype=np.int64)      # an extra column identifying the test, whatever its row label is
+    df = pd.DataFrame(cols)
     if index is not None:
         df.index = pd.Index(index)
     return df
+
+
+# Row labels are not part of the data.  Layouts a user's frame can have:
+LAYOUTS = ("range", "sparse", "descending", "concat", "concat", "pairs", "constant", "str", "str_dup", "float")
+
+
+def row_labels(n, layout, split):
+    """Index labels for n rows.  'concat' is what pd.concat([campaign_1, campaign_2]) without ignore_index gives (both start
+    at 0: repeated labels), 'pairs' / 'constant' / 'str_dup' repeat labels in other patterns, the rest are unique."""
+    if layout == "range":
+        return None
+    if layout == "sparse":
+        return [100 + 7 * i for i in range(n)]
+    if layout == "descending":
+        return [n - i for i in range(n)]
+    if layout == "concat":
+        m = max(1, min(n - 1, split)) if n > 1 else 1
+        return list(range(m)) + list(range(n - m))
+    if layout == "pairs":
+        return [i // 2 for i in range(n)]
+    if layout == "constant":
+        return [0] * n
+    if layout == "str":
+        return ["t%02d" % i for i in range(n)]
+    if layout == "str_dup":
+        return ["batch-%d" % (i % 3) for i in range(n)]
+    if layout == "float":
+        return [0.5 * i for i in range(n)]
+    raise ValueError(layout)
 
 
 def transformed(rows, kind, c=None, perm=None):
@@ -484,7 +516,8 @@ def _closed_cases(draw, tier, kind):
     case = {"rows": ds["rows"], "mode": mode}
     if kind == "perm":
         case["perm"] = draw(st.permutations(list(range(n))))
-        case["keep_index"] = draw(st.booleans())
+        case["layout"] = draw(st.sampled_from(LAYOUTS))
+        case["split"] = draw(st.integers(1, max(1, n - 1)))
     else:
         case["c"] = draw(_scales)
     return case
@@ -498,12 +531,15 @@ def _closed_run(kind):
         c, perm = case.get("c"), case.get("perm")
         index = index2 = None
         if kind == "perm":
-            ident = list(perm) == list(range(len(rows)))
-            if case["keep_index"]:
-                # the permuted frame keeps the row labels of the original (df.iloc[perm]); labels are not positions
-                index = [10 + 3 * i for i in range(len(rows))]
-                index2 = [index[j] for j in perm]
-            ctx.label("keep_index" if case["keep_index"] else "fresh_index")
+            # the original series has a fresh RangeIndex; the permuted copy carries row labels of the drawn layout
+            # (unique, repeated as after pd.concat, strings ...): neither order nor labels are part of the data
+            lab = row_labels(len(rows), case.get("layout", "range"), case.get("split", 1))
+            index2 = None if lab is None else [lab[j] for j in perm]
+            ident = list(perm) == list(range(len(rows))) and lab is None
+            ctx.label("layout=" + case.get("layout", "range"))
+            if lab is not None and len(set(lab)) < len(lab):
+                inf_lab = set(lab[i] for i in s["infinite"])
+                ctx.label("label_shared_across_zones" if any(lab[i] in inf_lab for i in s["finite"]) else "repeated_labels")
         else:
             ident = c == 1.0
             ctx.label("pow2" if math.log2(c) == int(math.log2(c)) else "float_factor")
@@ -579,12 +615,15 @@ def _zone_cases(draw, tier):
     mode = draw(st.sampled_from(["any", "wild", "wild"]))
     ds = draw(_datasets(tier, mode=mode))
     n = len(ds["rows"])
-    return {"rows": ds["rows"], "c": draw(_scales), "perm": draw(st.permutations(list(range(n))))}
+    return {"rows": ds["rows"], "c": draw(_scales), "perm": draw(st.permutations(list(range(n)))),
+            "layout": draw(st.sampled_from(LAYOUTS)), "split": draw(st.integers(1, max(1, n - 1)))}
 
 
-def _zones(rows, index):
-    """-> None if FatigueData rejects the series, else (finite labels, infinite labels, transition, dropped-variant of the same)."""
-    df = frame(rows, index)
+def _zones(rows, index, rid):
+    """-> message if FatigueData rejects the series, else for the series and for its irrelevant_runouts_dropped() variant:
+    the tests (by the specimen column, not by row label) in the finite zone, in the infinite zone, in the series; the
+    transition; the extreme loads of the zones."""
+    df = frame(rows, index, rid=rid)
     try:
         fd = df.fatigue_data
     except ValueError as e:
@@ -596,49 +635,63 @@ def _zones(rows, index):
         raise
     out = []
     for f in (fd, fd.irrelevant_runouts_dropped()):
-        out.append({"finite": sorted(f.finite_zone.index.tolist()), "infinite": sorted(f.infinite_zone.index.tolist()),
-                    "t": float(f.finite_infinite_transition), "all": sorted(f.load.index.tolist()),
-                    "fin_min": float(f.finite_zone.load.min()) if len(f.finite_zone) else None,
-                    "inf_max": float(f.infinite_zone.load.max()) if len(f.infinite_zone) else None})
+        fz, iz = f.finite_zone, f.infinite_zone
+        kept = [int(q) for q, L in zip(rid, df.load) if L in set(f.load.tolist())] if f is not fd else [int(q) for q in rid]
+        out.append({"finite": sorted(int(q) for q in fz["specimen"]), "infinite": sorted(int(q) for q in iz["specimen"]),
+                    "t": float(f.finite_infinite_transition), "all": sorted(kept), "n": int(f.num_tests),
+                    "fin_min": float(fz.load.min()) if len(fz) else None,
+                    "inf_max": float(iz.load.max()) if len(iz) else None})
     return out
 
 
 @subcheck(PROP, "zones", strategy=_zone_cases, quick=500, thorough=20000,
-          doc="finite_zone / infinite_zone partition the tests, the transition lies between them; equivariant under scaling and permutation")
+          doc="finite_zone / infinite_zone partition the tests, the transition lies between them; equivariant under scaling, "
+              "permutation and relabelling of the rows (unique, repeated, string labels)")
 def zones(case, ctx):
     rows, c, perm = case["rows"], case["c"], case["perm"]
     s = structure(rows)
     label_structure(ctx, s)
     n = len(rows)
-    index = [100 + 7 * i for i in range(n)]            # labels are not positions
-    z = _zones(rows, index)
-    zl = _zones(transformed(rows, "load", c=c), index)
-    zp = _zones(transformed(rows, "perm", perm=perm), [index[j] for j in perm])
-    if isinstance(z, str) or isinstance(zl, str) or isinstance(zp, str):
-        if not (isinstance(z, str) and isinstance(zl, str) and isinstance(zp, str)):
-            raise Violation("FatigueData validation differs between a series and its scaled / permuted copy: %r / %r / %r" % (
-                z if isinstance(z, str) else "ok", zl if isinstance(zl, str) else "ok", zp if isinstance(zp, str) else "ok"), bucket="zones:guard_differs")
+    layout = case.get("layout", "sparse")
+    index = row_labels(n, layout, case.get("split", 1))
+    ctx.label("layout=" + layout)
+    if index is not None and len(set(index)) < n:
+        inf_lab = set(index[i] for i in s["infinite"])
+        ctx.label("label_shared_across_zones" if any(index[i] in inf_lab for i in s["finite"]) else "repeated_labels")
+    ids = list(range(n))
+    z = _zones(rows, index, ids)
+    zr = _zones(rows, None, ids)                                     # the same rows with a fresh RangeIndex
+    zl = _zones(transformed(rows, "load", c=c), index, ids)
+    zp = _zones(transformed(rows, "perm", perm=perm), None if index is None else [index[j] for j in perm], list(perm))
+    alls = (z, zr, zl, zp)
+    if any(isinstance(q, str) for q in alls):
+        if not all(isinstance(q, str) for q in alls):
+            raise Violation("FatigueData validation differs between a series and its relabelled / scaled / permuted copy: %r" % (
+                [q if isinstance(q, str) else "ok" for q in alls],), bucket="zones:guard_differs")
         ctx.tolerate("FatigueData: ValueError %s" % z[:50])
         return
     for which, zz in (("", z[0]), (" (irrelevant run-outs dropped)", z[1])):
-        fin, inf = set(zz["finite"]), set(zz["infinite"])
-        if fin & inf or (fin | inf) != set(zz["all"]):
-            raise Violation("zones%s do not partition the tests: in both %r, in none %r" % (
-                which, sorted(fin & inf), sorted(set(zz["all"]) - fin - inf)), bucket="zones:partition")
+        fin, inf = zz["finite"], zz["infinite"]
+        both = sorted(set(fin) & set(inf))
+        if both or sorted(fin + inf) != zz["all"] or zz["n"] != len(zz["all"]):
+            raise Violation("zones%s do not partition the tests (row labels %s): in both %r, in none %r, %d + %d tests in the zones, %d in the series"
+                            % (which, layout, both, sorted(set(zz["all"]) - set(fin) - set(inf)), len(fin), len(inf), zz["n"]),
+                            bucket="zones:partition")
         t = zz["t"]
         if (zz["inf_max"] is not None and not zz["inf_max"] <= t) or (zz["fin_min"] is not None and not t <= zz["fin_min"]):
             raise Violation("transition%s %r not between the largest infinite-zone load %r and the smallest finite-zone load %r" % (
                 which, t, zz["inf_max"], zz["fin_min"]), bucket="zones:transition")
     # the split is at the highest run-out level (harness model)
-    want_fin = sorted(index[i] for i in s["finite"])
-    want_inf = sorted(index[i] for i in s["infinite"])
+    want_fin = sorted(s["finite"])
+    want_inf = sorted(s["infinite"])
     if z[0]["finite"] != want_fin or z[0]["infinite"] != want_inf:
-        raise Violation("zone split differs from 'fractures above the highest run-out level': finite %r (expected %r)" % (
-            z[0]["finite"], want_fin), bucket="zones:split")
+        raise Violation("zone split (row labels %s) differs from 'fractures above the highest run-out level': finite %r (expected %r)" % (
+            layout, z[0]["finite"], want_fin), bucket="zones:split")
     for v in (0, 1):
-        for name, other, f in (("loads x %r" % c, zl, c), ("permutation", zp, 1.0)):
+        for name, other, f in (("fresh RangeIndex", zr, 1.0), ("loads x %r" % c, zl, c), ("permutation", zp, 1.0)):
             if other[v]["finite"] != z[v]["finite"] or other[v]["infinite"] != z[v]["infinite"] or other[v]["all"] != z[v]["all"]:
-                raise Violation("%s changes the zones: %r -> %r" % (name, z[v]["finite"], other[v]["finite"]), bucket="zones:equivariance")
+                raise Violation("%s changes the zones (row labels %s): finite %r -> %r" % (name, layout, z[v]["finite"], other[v]["finite"]),
+                                bucket="zones:equivariance")
             if not close(other[v]["t"], z[v]["t"] * f, 1e-12):       # one addition and one halving: 1e-12 is generous
                 raise Violation("%s: transition %r, expected %r" % (name, other[v]["t"], z[v]["t"] * f), bucket="zones:transition_equivariance")
     if len(s["levels"]) >= 3 and s["n_runouts"] >= 1:
